@@ -28,6 +28,11 @@ package walletdb
 //@ axiom sub_injective: forall p1 Int, k1 Bytes, p2 Int, k2 Bytes :: {sub(p1, k1), sub(p2, k2)} sub(p1, k1) == sub(p2, k2) ==> p1 == p2 && k1 == k2
 //@ axiom sub_not_self: forall p Int, k Bytes :: {sub(p, k)} sub(p, k) != p
 
+// under(id, root): bucket id lies strictly below bucket root in the bucket tree
+//@ spec func under(id Int, root Int) Bool
+//@ axiom under_sub: forall p Int, k Bytes, r Int :: {under(sub(p, k), r)} under(sub(p, k), r) == (p == r || under(p, r))
+//@ axiom under_root: forall r Int :: {under(0, r)} !under(0, r)
+//@ axiom sub_not_root: forall p Int, k Bytes :: {sub(p, k)} sub(p, k) != 0
 //@ macro LIVE(b, name) = select(DBlive, sub(bid(b), name))
 //@ macro HAS(id, k) = select(select(DBhas, id), k)
 //@ macro VAL(id, k) = select(select(DBval, id), k)
@@ -49,6 +54,7 @@ package walletdb
 // database (dbmem): it exists before the call, is never a Go allocation of the
 // verified code, and reading does not change any memory.
 //@ spec func dbmem(r Int) Bool
+//@ axiom dbmem_not_inside_objects: forall r Int, k Int :: {fld(r, k)} !dbmem(fld(r, k))
 //@ iface ReadBucket.Get(b, key) (v)
 //@   trusted
 //@   pure
@@ -139,3 +145,15 @@ package walletdb
 //@ func View(db, f) (err)
 //@   trusted
 //@   ensures fault_reported: wfault && !old(wfault) ==> err != nil
+
+// top-level buckets hang off the root id 0
+//@ iface ReadWriteTx.ReadWriteBucket(tx, key) (r)
+//@   trusted
+//@   pure
+//@   ensures nil_iff_missing: (r == nil) == !select(DBlive, sub(0, bytes(key)))
+//@   ensures id: r != nil ==> bid(r) == sub(0, bytes(key))
+//@ iface ReadTx.ReadBucket(tx, key) (r)
+//@   trusted
+//@   pure
+//@   ensures nil_iff_missing: (r == nil) == !select(DBlive, sub(0, bytes(key)))
+//@   ensures id: r != nil ==> bid(r) == sub(0, bytes(key))
